@@ -194,12 +194,13 @@ def common(c):
         if c.violations:
             return c.finish(rule="stopped after the first failing stage")
     if thorough:
-        _design_and_replay(c, init, "MCChainNodes_cover_t.cfg", "transition cover (3 blocks, edit family)")
-        if c.violations:
-            return c.finish(rule="stopped after the first failing stage")
+        for fam, cfg in (("edit", "MCChainNodes_cover_t.cfg"), ("jail", "MCChainNodes_cover_t_jail.cfg"), ("unstake", "MCChainNodes_cover_t_unstake.cfg")):
+            _design_and_replay(c, init, cfg, "transition cover (3 blocks, %s family)" % fam)
+            if c.violations:
+                return c.finish(rule="stopped after the first failing stage")
 
     # ---- 2. recorded scripted + random chains validated by TLC with this property's invariant
-    nrand, blocks = (16, 150) if thorough else (3, 60)
+    nrand, blocks = (12, 150) if thorough else (3, 60)
     tr = os.path.join(c.scratch, "trace-nodes.ndjson")
     targs = ["trace-nodes", "-out", tr, "-n", nrand, "-blocks", blocks, "-scenarios", "all"]
     rep = vf.run_harness(BIN, targs, env={"VERIF_SEED": c.seed}, timeout=3000)
